@@ -316,8 +316,8 @@ class VC:
         if isinstance(op, ast.Sub) and is_int(a) and is_int(b): return a - b
         if isinstance(op, ast.Mult):
             if is_int(a) and is_int(b): return a * b
-            if isinstance(a, VList) and is_int(b):          # [e] * n
-                return VList(a.arr, a.n * b, a.kind) if isinstance(a.n, int) and a.n == 1 and False else self.list_repeat(a, b, P)
+            if isinstance(a, VList) and is_int(b):          # [e] * n  (a new list object)
+                return self.alloc(P, self.list_repeat(a, b, P))
         if isinstance(op, ast.FloorDiv) and is_int(a) and is_int(b): return self.floordiv(a, b, P, line)
         if isinstance(op, ast.Mod) and is_int(a) and is_int(b): return self.mod(a, b, P, line)
         if isinstance(op, ast.Pow) and is_int(a) and isinstance(b, int) and 0 <= b <= 8:
@@ -531,6 +531,8 @@ class VC:
             raise OutsideSubset('comprehension shape')
         g = e.generators[0]
         h = self.c.calls.get('comp:' + ast.unparse(e))
+        if h is None and isinstance(e.elt, ast.Call):
+            h = self.c.calls.get('comp-call:' + ast.unparse(e.elt.func))
         if h: return h(self, P, e)
         it = g.iter
         # [[x] * n for _ in range(m)]  -> fresh matrix with all entries x
@@ -566,6 +568,9 @@ class VC:
 
     def ev_Call(self, e, P):
         fname = ast.unparse(e.func)
+        hr = self.c.calls.get('raw:' + ast.unparse(e))
+        if hr is not None:
+            return hr(self, P, e)
         h = self.c.calls.get(fname)
         if h is None and isinstance(e.func, ast.Attribute):
             # method call on a value
@@ -836,6 +841,7 @@ class VC:
         if isinstance(v, VList): return VList(self.fresh(name, ARR), self.fresh(name + '_n'), v.kind)
         if isinstance(v, VBytes): return VBytes(v.arr, self.fresh(name + '_lo'), self.fresh(name + '_hi'))
         if isinstance(v, VRow): return v
+        if isinstance(v, VObj): return VObj(v.cls, **{k: self.havoc_value(f'{name}.{k}', x, P) for k, x in v.f.items()})
         raise OutsideSubset(f'havoc of {name}={v!r}')
 
     def havoc_obj(self, name, o, P):
@@ -858,6 +864,9 @@ class VC:
     def iteration_space(self, st, P):
         """for-loops: returns (lo, hi, bind(P, i)) with i the ghost index; iteration over i = lo..hi-1"""
         it = st.iter; tgt = st.target
+        hk = self.c.calls.get('iter:' + ast.unparse(it))
+        if hk is not None:
+            return hk(self, P, st)
         def rng(args):
             a = [P.deref(self.ev(x, P)) for x in args]
             if len(a) == 1: return 0, a[0], 1
